@@ -547,3 +547,42 @@ def rule_enginefill(ctx) -> RuleResult:
                    f"members of a group are all NaN, the combine ('{premises[0][2]}', NaN-propagating) expects {premises[0][3]}, and {names} return the position of the "
                    "first entry of the tree node instead of the extreme's")
     return res
+
+
+# ---------------------------------------------------------------------------------------------
+# R-ALLNANFILL (C06, C04): a NaN-skipping extreme / sum kernel answers a group without valid members with the FILL it was given, never with NaN.
+# The blueprints hand every block kernel the identity of the combine step as fill_value (-inf for nanmax, +inf for nanmin, 0 / 1 for sums and
+# products).  The arg-reduction blueprints combine with the NaN-PROPAGATING max / min, so a block kernel that writes NaN for "all members NaN"
+# (what np.nanmax does, with a warning) poisons the combine: no entry matches the NaN extreme and the position of an unrelated element comes
+# out.  In every engine module, the function bound to nanmax / nanmin / nansum / nanprod (directly or through partial(func=...)) contains no
+# store of NaN into its result.
+_FILL_HONOURING = {"nanmax", "nanmin", "nansum", "nanprod", "max", "min"}
+
+
+def rule_allnanfill(ctx) -> RuleResult:
+    res = RuleResult("R-ALLNANFILL", "NaN-skipping extreme / sum kernels answer all-NaN groups with the fill they are given, never with NaN", min_instances=2)
+    prog = ctx.prog
+    for uname in ("aggregate_npg", "aggregate_flox", "aggregate_numbagg"):
+        u = prog.units.get(uname)
+        if u is None:
+            continue
+        bound: dict[str, set[str]] = {}          # function name -> kernel names that reach it
+        for st in u.tree.body:
+            if isinstance(st, ast.Assign) and len(st.targets) == 1 and isinstance(st.targets[0], ast.Name) and st.targets[0].id in _FILL_HONOURING \
+                    and isinstance(st.value, ast.Call) and norm(st.value.func) in ("partial", "functools.partial") and st.value.args:
+                bound.setdefault(norm(st.value.args[0]), set()).add(st.targets[0].id)
+            if isinstance(st, ast.FunctionDef) and st.name in _FILL_HONOURING:
+                bound.setdefault(st.name, set()).add(st.name)
+        for fname, kernels in sorted(bound.items()):
+            f = prog.funcs.get(f"{uname}.{fname}")
+            if f is None:
+                continue
+            nan_stores = [a for a in walk_own(f.node) if isinstance(a, ast.Assign) and len(a.targets) == 1 and isinstance(a.targets[0], ast.Subscript)
+                          and norm(a.value) in ("np.nan", "float('nan')", "nan", "np.NaN")]
+            res.inst(f"{uname}.{fname} (kernels {sorted(kernels)}): stores of NaN into a result: {len(nan_stores)}", f"{uname}.{fname}")
+            for a in nan_stores:
+                res.report(f"{uname}.{fname}|all-nan-group-written-as-nan|{'+'.join(sorted(kernels))}", f.where(a), f.qualname,
+                           f"'{norm(a)[:60]}' writes NaN into the result of {sorted(kernels)}: the blueprints pass the identity of their combine step as fill_value, and the "
+                           "arg-reduction blueprints combine with the NaN-propagating max / min -- a block whose members of a group are all NaN must hand on that fill, or "
+                           "nanargmax / nanargmin return the position of an unrelated element")
+    return res
